@@ -234,6 +234,15 @@ def make_plan(seed, index, tier, sub):
         break
       roots.append(_gen_link(rng, 't%d' % t, budget, 0, 4, True, n_shared))
     threads.append({'roots': roots})
+  # thread generations: some threads are only created after an earlier one has
+  # ended (thread identifiers get reused); the program may also forget the ended
+  # thread's Thread object while a successor is inside a region
+  if nthreads >= 2 and rng.random() < 0.3:
+    for j in range(1, nthreads):
+      if rng.random() < 0.5:
+        threads[j]['after'] = rng.randrange(j)
+        if rng.random() < 0.7:
+          threads[j]['forget_at'] = rng.randint(5, 400)
   plan = {
       'prop': 'C16', 'threads': threads, 'shared': shared,
       'ctx_copy': rng.random() < 0.25,
@@ -828,7 +837,12 @@ def execute(lane, plan, schedule, rdir, keep_log=False):
     return run
   for tid, tplan in enumerate(plan['threads']):
     tgt = make_target(tid, tplan)
-    sim.add_thread('t%d' % tid, under_copy(tgt) if base_ctx is not None else tgt)
+    sim.add_thread('t%d' % tid, under_copy(tgt) if base_ctx is not None else tgt, after=tplan.get('after'))
+    if tplan.get('after') is not None and tplan.get('forget_at'):
+      def forget(sim_, thread, pred=tplan['after']):
+        if sim_.forget_thread(pred):
+          sim_.probe('ended_thread_object_forgotten')
+      sim.at_point(tid, tplan['forget_at'], forget)
 
   def on_lock(kind, lock, thread):
     if kind == 'blocked':
@@ -900,6 +914,13 @@ def shrink_candidates(plan):
     for i in range(nt):
       p = copy.deepcopy(plan)
       del p['threads'][i]
+      for t2 in p['threads']:
+        if t2.get('after') is not None:
+          if t2['after'] == i:
+            t2.pop('after')
+            t2.pop('forget_at', None)
+          elif t2['after'] > i:
+            t2['after'] -= 1
       p['faults'] = [dict(f, thread=(f['thread'] - (1 if f['thread'] > i else 0)))
                      for f in p['faults'] if f['thread'] != i]
       out.append(('drop-thread-%d' % i, p, {'drop_tid': i}))
